@@ -132,7 +132,18 @@ var ops = []op{
 		return canon(v)
 	})},
 	{"unpack", func(r *ajson.Node) string { v, _ := r.Unpack(); return canon(v) }},
-	{"marshal", perNode(func(n *ajson.Node) string { b, _ := ajson.Marshal(n); return string(b) })},
+	{"marshal", perNode(func(n *ajson.Node) string {
+		// the reader owns what Marshal returned: it keeps the text, then reuses the slice as a scratch buffer (overwrites it and
+		// appends to it) — with a result that is a window into the shared document that is a write every other reader sees
+		b, _ := ajson.Marshal(n)
+		text := string(b)
+		for i := range b {
+			b[i] = '#'
+		}
+		b = append(b, " <- mine\n"...)
+		_ = b
+		return text
+	})},
 	{"string", perNode(func(n *ajson.Node) string { return n.String() })},
 	{"eq", func(r *ajson.Node) string {
 		var b strings.Builder
